@@ -33,7 +33,65 @@ def _nested(case, a):
     return None
 
 
+@monitor('c19_light')
+def _light(case, a):
+    """the same stream as seen by an observer that keeps **nothing** of what it is shown (no reference to any expression: only
+    depth, source span and outcome kind are noted) — what the project's own printing debugger is. Expressions the evaluator
+    no longer needs may then be freed while their frame is still open; every announced expression must be reported finished
+    all the same, at its depth."""
+    import gc
+    from pbhhg_py import interpret, parse, abstract_syntax as AS, main as M
+    ev = []
+    class Light(interpret.DebuggerBase):
+        def before_eval(self, depth, expr):
+            m = expr.expr.metadata
+            ev.append(('B', depth, (m.line_no, m.start_col, m.end_col)))
+        def after_eval(self, depth, expr, result):
+            m = expr.expr.metadata
+            ev.append(('A', depth, (m.line_no, m.start_col, m.end_col)))
+    def fn():
+        exprs = parse.parse('<t>', case.program)
+        out = []
+        for e in exprs:
+            out.append(interpret.evaluate(M.formatter(AS.Expr(e, AS.Env([], [])), case.format_io), debugger=Light()))
+            gc.collect()
+        return {'kind': 'ok', 'results': out}
+    r = impl.run(fn, case.stdin, case.fs, case.timeout)
+    stack, depth = [], 0
+    for e in ev:
+        if e[0] == 'B':
+            if e[1] != depth + 1:
+                return f"non-retaining observer: before-event at depth {e[1]}, expected {depth + 1}"
+            depth += 1
+            stack.append((e[1], e[2]))
+        else:
+            if not stack:
+                return "non-retaining observer: after-event without a pending before-event"
+            d, sp = stack.pop()
+            if (e[1], e[2]) != (d, sp):
+                return (f"non-retaining observer: after-event (depth {e[1]}, span {e[2]}) does not match the innermost pending "
+                        f"before-event (depth {d}, span {sp})")
+            depth -= 1
+    if r['kind'] in ('ok', 'err') and (depth != 0 or stack):
+        return f"non-retaining observer: {len(stack)} announced expression(s) never reported finished"
+    if len(ev) != len(a['events']) and r['kind'] == a['kind'] and r['kind'] in ('ok', 'err'):
+        return f"non-retaining observer saw {len(ev)} events, the retaining one {len(a['events'])}"
+    return None
+
+
 def cases(rng, tier):
+    k = 0
+    for c in _cases(rng, tier):
+        yield c
+        k += 1
+        if c.mode == 'events' and c.monitor == 'c19_nested' and k % 2 == 0:
+            # every second case again under an observer that retains nothing (seeded change S19l held tail-called expressions
+            # only weakly: invisible to an observer that keeps them alive)
+            yield Case(program=c.program, stdin=c.stdin, fs=c.fs, mode='events', tag=c.tag + '-light', monitor='c19_light', skip_model=True,
+                       timeout=c.timeout, format_io=c.format_io)
+
+
+def _cases(rng, tier):
     n = 800 if tier == 'quick' else 20000
     g = gen.Gen(rng, max_depth=5)
     for i in range(n):
